@@ -36,6 +36,14 @@ K_ASSUME = ["CQEs become visible at io_uring_enter boundaries only (as with DEFE
             "polling-driver runs take readiness from the real epoll instance at the instants the simulator looks: local pipes and sockets become ready synchronously with the peer's system call, so the same choices give the same run",
             "sampling, not enumeration"]
 
+M_RULE = ("run i = scenario picked by splitmix(VERIF_SEED, property, i); one xoshiro256** stream draws the kernel configuration shared by every thread's simulated kernel, the workload program (threads, tasks, modes, join/stop points), 0..4 preemption points (indexes into the run's sequence of scheduling points, over a horizon of 30..30000) and then, at every point where the running thread blocks, yields or is preempted, which of the runnable threads gets the baton (choice 0: the next one in ring order), besides every kernel decision inside each thread's io_uring_enter. "
+          "A run's signature hashes the baton hand-overs (from, to) together with each kernel's event sequence; 'distinct' counts different signatures.")
+M_STUB = K_STUB[:2] + ["the OS scheduler: threads are real, but a thread only runs while it holds the baton; blocking (futex wait, pthread_join, idle io_uring_enter) hands it on", "blocking-pool threads are real threads of the run (started through hook H1), scheduled like the others"]
+M_ASSUME = ["threads interleave only at the intercepted points (guarded hooks in compio-executor/driver, vendored flume locks, kernel entries, futex waits, thread start/end); between two such points a thread runs alone, so data races inside such a stretch and weak-memory effects are not explored",
+            "few preemptions per run (0..4, PCT-style) plus all voluntary switches", "io_uring driver only (the polling driver's wait is not multi-thread aware in the simulator)",
+            "a run that deadlocks ends its worker process (the threads are real); it is reported as a violation whose replay regenerates the run from its seed, unminimised",
+            "sampling, not enumeration"]
+
 PROPS = {
     "C11": {
         "title": "I/O helpers are invariant under chunking and transient errors",
@@ -416,6 +424,25 @@ PROPS = {
         "level_text": ("Seeded exploration of stream/datagram programs over a lossy, duplicating, reordering simulated network and small flow-control windows: per stream the server reads exactly the client's bytes and then end of stream, the echo equals what was written, streams and datagrams do not interfere, "
                        "a slow reader only delays; closing a connection or an endpoint with operations pending makes every one of them resolve within a bound of simulated time."),
         "level_note": "Hours of simulated protocol time cost milliseconds.",
+    },
+    "C18": {
+        "title": "The dispatcher starts every accepted task exactly once",
+        "engine": "M",
+        "package": "check-k",
+        "bin": "check-k",
+        "design_ref": "§7 C18, §13.9",
+        "technique": "deterministic simulation of real OS threads under a baton scheduler: the real compio-dispatcher with 1..3 worker threads (each a real thread with its own compio runtime on its own simulated io_uring kernel) plus the main thread and up to two further dispatching threads; thread creation (pthread_create), futex waits of std's locks/condvars/park (syscall), pthread_join and idle waits in a thread's simulated kernel are intercepted so that exactly one thread executes at any time; which thread runs next, and a generated small number of preemptions at the scheduling points of compio's guarded hooks and of the vendored channel, are drawn from the run's seed; cross-thread wake-ups travel through the real eventfd notifier into the other thread's simulated ring; one global simulated clock (jumps when every thread is idle); generated task sets (immediate, yielding, sleeping, pipe I/O, nested local task), concurrent or sequential mode, generated await-before-join subsets; exactly-once, own-result, overlap, unfinished-at-join, ran-after-join and receiver-hangs oracles; kernel faults (EINTR, partial submit, short transfers, reordering) per thread; choice-sequence minimisation and replay; a deadlock of all threads ends the process and is reported with a from-seed replay",
+        "tiers": {
+            "quick": {"runs": 100_000, "time_limit_s": 60},
+            "thorough": {"runs": 30_000_000, "time_limit_s": 1500},
+        },
+        "rule": M_RULE,
+        "real": K_REAL + ["compio-dispatcher; flume (vendored: its locks yield to the scheduler), futures-channel oneshot", "real OS threads (std::thread), std's Mutex/Condvar/park (their futex waits end when the futex word changed), the real eventfd of each driver's notifier"],
+        "stub": M_STUB,
+        "assumptions": M_ASSUME,
+        "level_text": ("Seeded exploration of thread interleavings of the real dispatcher (worker runtimes, dispatching threads, join): every accepted closure is entered at most once and, when its result is awaited before the join, exactly once with its own value arriving; "
+                       "in sequential mode no worker overlaps two tasks and all accepted tasks have finished when join returns; after join no task code runs, every receiver is resolved or cancelled, all worker threads have ended."),
+        "level_note": "Interleavings are those expressible at the intercepted points (hooks, channel operations, kernel entries, futex waits); memory-model effects below sequential consistency are out of reach.",
     },
     "C20": {
         "title": "Child processes: complete stdio and the real exit status",
